@@ -106,6 +106,17 @@ def run(rep, scratch, tier, seed, replay=None):
                       "ParseQuery(%s): implementation %s, model %s%s" % (core.show_bytes(small)[:120], im.get(("P", "x"), a)[:160], mo.get(("P", "x"), b)[:160],
                                                                        " (lexer goroutine left behind)" if what == "leak" else ""),
                       {"input_hex": small.hex(), "input": core.show_bytes(small), "impl": im.get(("P", "x"), a), "model": mo.get(("P", "x"), b), "kind": kind})
+    # the goroutine clause as an obligation on the regenerated skeleton of ParseQuery
+    if not replay:
+        from . import locks
+        ob = locks.check_obligations(scratch, PID, dirs="internal/queryparser")
+        rep.coverage["goroutine_obligation"] = {"file": "coq/obligations/ObC09.v", "ok": ob["ok"], "theorems": ob["theorems"], "closed_under_global_context": ob["closed"],
+                                                "translator": "tools/lockskel -dirs=internal/queryparser: a call of a function that leaves a goroutine running is an acquisition, a call of a function that ranges over the lexer's channel until it is closed is its release"}
+        rep.coverage["obligations"] = rep.coverage.get("obligations", 0) + len(ob["theorems"])
+        rep.coverage["discharged"] = rep.coverage.get("discharged", 0) + (len(ob["theorems"]) if ob["ok"] else 0)
+        if not ob["ok"] and not any(what == "leak" for _, _, _, what, _, _ in bad):
+            rep.violation("obligation", "the goroutine obligation of C09 no longer checks (coq/obligations/ObC09.v against the skeleton of ParseQuery in the working tree: some path to a return does not join the lexer goroutine it started, or the translator no longer recognises the join); no input of this run left a goroutine behind",
+                          {"broken": "C09_locks / C09_goroutine_joined", "unknown_to_policy": ob.get("unknown_to_policy", ""), "coqc_output": ob["output"][-2500:]}, no_input=True)
     rep.coverage.update({
         "evaluations": len(cases), "distinct_nontrivial": len(distinct),
         "rule": "directed cases, placeholder edge cases ($, $0, $007, 2^31-1, 2^31, 2^32+1, 20 digits, signs), random derivations of the grammar (depth<=6, arity 2..4, hostile values, group-by lists) spelled with random white space, 1-3 token-level mutations of them (drop/duplicate/swap/insert/replace/truncate/append), single-byte insertions, raw byte strings. Compared: accept/reject and the tree; goroutine count polled back to baseline after each case. Non-trivial = distinct accepted trees.",
